@@ -82,10 +82,14 @@ Proof. vm_compute. reflexivity. Qed.
 Definition exPrev : nslice Qops := mkN Qops 5 3 2 (1#10) 7 (2#10).
 (* no result from the driving-force calculation: repaired tree keeps every term, pinned tree ends in TypeError *)
 Example df_fault_example :
-  nucStep Qops true (1#20) 1 1 exPrev (mkNO Qops None 0 0 0 0 0) = Ok exPrev /\
-  nucStep Qops false (1#20) 1 1 exPrev (mkNO Qops None 0 0 0 0 0) = Err ErrType /\
-  nucStep Qops true (1#20) 1 1 exPrev (mkNO Qops (Some 4) (1#40) 9 6 8 (1#100)) = Ok (mkN Qops 4 6 9 (1#20) 8 (3#50)) /\
-  nucStep Qops true (1#20) 1 1 exPrev (mkNO Qops (Some (-4)) (1#40) 9 6 8 (1#100)) = Ok (mkN Qops (-4) 3 2 (1#10) 7 (2#10)).
+  nucStep Qops true true (1#20) 1 1 exPrev (mkNO Qops None 0 0 0 0 0) = Ok exPrev /\
+  nucStep Qops false true (1#20) 1 1 exPrev (mkNO Qops None 0 0 0 0 0) = Err ErrType /\
+  nucStep Qops true true (1#20) 1 1 exPrev (mkNO Qops (Some 4) (1#40) 9 6 8 (1#100)) = Ok (mkN Qops 4 6 9 (1#20) 8 (3#50)) /\
+  (* negative driving force: everything but the driving force is 0; before the repair the previous terms stayed *)
+  nucStep Qops true true (1#20) 1 1 exPrev (mkNO Qops (Some (-4)) (1#40) 9 6 8 (1#100)) = Ok (mkN Qops (-4) 0 0 0 0 0) /\
+  nucStep Qops true false (1#20) 1 1 exPrev (mkNO Qops (Some (-4)) (1#40) 9 6 8 (1#100)) = Ok (mkN Qops (-4) 3 2 (1#10) 7 (2#10)) /\
+  (* zero impingement: the current barrier is recorded, no rate *)
+  nucStep Qops true true (1#20) 1 1 exPrev (mkNO Qops (Some 4) (1#40) 9 0 8 (1#100)) = Ok (mkN Qops 4 0 9 (1#20) 0 0).
 Proof. repeat split; vm_compute; reflexivity. Qed.
 
 Example growth_fault_example :
